@@ -328,4 +328,33 @@ DesignElfNext(mem, it, p, st) ==     \* st = [i] : next entry index
   ELSE LET e == ElfEntry(mem, it, p, st.i) IN
        IF ElfInUse(e.raw) THEN [o |-> Some(e), st |-> [i |-> st.i + 1]]
        ELSE DesignElfNext(mem, it, p, [i |-> st.i + 1])
+\* ---- tiled regions: a very large number of small tags (C01 / C03 / C19) ------------------------------------------------
+\* The walk is a loop over stored sizes: neither the number of tags nor the number of tags an iterator skips between
+\* two items is limited by anything but the region.  A tiled region t = [v, n] is
+\*   v = "info": header | module tag | n tags of type 99, size 8 | module tag | end tag
+\*   v = "elf" : header | ELF-sections tag with n unused (all-zero) 40-byte entries | end tag
+\* It is given structurally (memx with a tile pattern); what each call of the fixed plan returns follows from n alone.
+TileTag == <<99, 0, 0, 0, 8, 0, 0, 0>>
+TileModule(a) == U32Bytes(3) \o U32Bytes(17) \o a \o a \o <<0>> \o <<0, 0, 0, 0, 0, 0, 0>>          \* 17 bytes, padded to 24
+TileLen(t) == IF t.v = "info" THEN 8 + 24 + 8 * t.n + 24 + 8 ELSE 8 + RoundUp8(20 + 40 * t.n) + 8
+TileMemx(t) ==
+  LET L == TileLen(t)  hdr == [off |-> 0, b |-> U32Bytes(L) \o <<0, 0, 0, 0>>]  endt == [off |-> L - 8, b |-> EndTagBytes] IN
+  IF t.v = "info"
+  THEN [len |-> L, fill |-> 0, tile |-> TileTag,
+        patch |-> <<hdr, [off |-> 8, b |-> TileModule(<<1, 0, 0, 0>>)], [off |-> L - 32, b |-> TileModule(<<2, 0, 0, 0>>)], endt>>]
+  ELSE [len |-> L, fill |-> 0, tile |-> <<0>>,
+        patch |-> <<hdr, [off |-> 8, b |-> U32Bytes(9) \o U32Bytes(20 + 40 * t.n) \o U32Bytes(t.n) \o U32Bytes(40) \o U32Bytes(0)], endt>>]
+\* calls carry what they are applied to ("of") and, for next(), how many calls went before on that iterator ("k")
+TileExpect(t, call) ==
+  LET L == TileLen(t) IN
+  CASE call.op = "load" -> Ok([start |-> 0, end |-> L, ptr |-> 0, total |-> L])
+    [] call.op \in {"tags", "module_tags", "elf_sections", "dbg"} -> Unit
+    [] call.op = "count" -> Val(U64Bytes(CASE call.of = "tags" -> t.n + 3 [] call.of = "mods" -> 2 [] OTHER -> 0))
+    [] call.op = "last" -> Some([at |-> L - 8, sv |-> 8])
+    [] call.op = "nth" -> Some([at |-> 8 + 24 + 8 * (call.n - 1), sv |-> 8])                  \* 1 <= call.n <= t.n: a filler tag
+    [] call.op = "next" /\ call.of = "mods" ->
+         (CASE call.k = 0 -> Some([at |-> 8, size |-> U32Bytes(17), sv |-> 24])
+            [] call.k = 1 -> Some([at |-> L - 32, size |-> U32Bytes(17), sv |-> 24])
+            [] OTHER -> None)
+    [] call.op = "next" -> None                                                               \* ELF: every entry is unused
 =============================================================================
